@@ -63,10 +63,14 @@ class TaskGroup(TaskConstraint):
             self._scheduled_assertion = []
 
         for task in self.list_of_tasks:
-            self._scheduled_assertion += [
+            task_in_group = z3.And(
                 task._start >= self._start,
                 task._end <= self._end,
-            ]
+            )
+            if task.optional:
+                # an optional task belongs to the group only if it is scheduled
+                task_in_group = z3.Implies(task._scheduled, task_in_group)
+            self._scheduled_assertion += [task_in_group]
 
 
 class UnorderedTaskGroup(TaskGroup):
@@ -87,18 +91,21 @@ class OrderedTaskGroup(TaskGroup):
         super().__init__(**data)
         # add a constraint between each task
         for i in range(len(self.list_of_tasks) - 1):
+            task_before = self.list_of_tasks[i]
+            task_after = self.list_of_tasks[i + 1]
             if self.kind == "lax":
-                self._scheduled_assertion += [
-                    self.list_of_tasks[i]._end <= self.list_of_tasks[i + 1]._start
-                ]
+                order_assertion = task_before._end <= task_after._start
             elif self.kind == "strict":
-                self._scheduled_assertion += [
-                    self.list_of_tasks[i]._end < self.list_of_tasks[i + 1]._start
-                ]
+                order_assertion = task_before._end < task_after._start
             else:  # kind == 'tight':
-                self._scheduled_assertion += [
-                    self.list_of_tasks[i]._end == self.list_of_tasks[i + 1]._start
-                ]
+                order_assertion = task_before._end == task_after._start
+            if task_before.optional or task_after.optional:
+                # both tasks must be scheduled so that the order applies
+                order_assertion = z3.Implies(
+                    z3.And(task_before._scheduled, task_after._scheduled),
+                    order_assertion,
+                )
+            self._scheduled_assertion += [order_assertion]
 
         self.set_z3_assertions(z3.And(self._scheduled_assertion))
 
